@@ -70,6 +70,7 @@ def _str_case(vals, acc):
 
 def _plain_case(vals, acc):
     x, y = vals
+    acc.counters['evaluations'] += 2          # three (value, spec) pairs per case
     judge(acc, x, y, x == y, 'plain-equality')
     judge(acc, x, '<in> ' + y, y in x, '<in>')
     judge(acc, x + y + x, '<in> %s' % y, True, '<in>')
